@@ -372,9 +372,63 @@ class Impl:
                 r = self.step(op)
                 # observe now: a returned structure may alias internal state that later ops change
                 out.append({"ok": copy.deepcopy(r)})
+                try:
+                    self._scribble(op, r)
+                except Exception:  # noqa: BLE001 -- e.g. a read-only array: nothing to spoil then
+                    pass
             except Exception as e:  # noqa: BLE001
                 out.append({"err": type(e).__name__, "msg": str(e)[:200]})
         return out[0]
+
+    # what a call returns belongs to the caller: after the result has been recorded, the interpreter writes into it the way user
+    # code does (rescales forged arrays in place, pops keys, edits a description it is about to re-use).  Later results must not
+    # change.  Spared: what the unchanged library documents or is known to hand out by reference (DESIGN 11.1 -- the stored raw
+    # arrays of an array channel, the sequencing dicts inside a forged structure, 'awgspecs' inside a sequence description).
+    def _scribble(self, op, r):
+        o = op["op"]
+        if op.get("_noscribble"):
+            return
+        if o == "el.getArrays" and isinstance(r, dict):
+            raw = self._raw_channels.get(op["id"], set()) if hasattr(self, "_raw_channels") else set()
+            unknown = op["id"] not in getattr(self, "_known_elements", set())
+            for ch, d in list(r.items()):
+                if isinstance(d, dict):
+                    if not unknown and ch not in raw:
+                        for a in d.values():
+                            if isinstance(a, np.ndarray) and a.dtype.kind == "f" and a.flags.writeable:
+                                a *= 3.0
+                                a += 0.125
+                    d.pop("m1", None)
+                    d["scribble"] = 1
+            r.pop(next(iter(r)), None) if len(r) > 1 else None
+        elif o == "sq.forge" and isinstance(r, dict) and isinstance(r.get("forged"), dict):
+            for pos, entry in r["forged"].items():
+                for p2, c in entry.get("content", {}).items():
+                    for ch, d in c.get("data", {}).items():
+                        for a in d.values():
+                            if isinstance(a, np.ndarray) and a.dtype.kind == "f" and a.flags.writeable:
+                                a *= 3.0
+                                a += 0.125
+                        d.pop("m2", None)
+        elif o in ("bp.desc", "el.desc", "sq.desc"):
+            pass        # (descriptions are turned into protocol values before they reach this point; see the _raw variants)
+
+    def _scribble_description(self, d, depth=0):
+        """edit every nested dict / list of a description in place (not 'awgspecs', which a sequence hands out by reference)"""
+        if isinstance(d, dict):
+            for k in list(d.keys()):
+                if k == "awgspecs":
+                    continue        # (also a subsequence's, nested in its parent's description)
+                v = d[k]
+                if isinstance(v, dict):
+                    if depth >= 1 and "func" in d and k == "kwargs":
+                        continue    # (the keyword dict of an arb_func segment is the stored argument itself)
+                    self._scribble_description(v, depth + 1)
+                elif isinstance(v, (int, float)) and not isinstance(v, bool):
+                    d[k] = v + 12345
+            if depth >= 1 and d:
+                d["scribble"] = 1
+        # (lists are left alone: a blueprint's description holds its marker lists themselves, a flags entry the stored list)
 
     # helpers
     def g(self, k):
@@ -471,8 +525,11 @@ class Impl:
         b = self.g(op["id"])
         d = b.description
         ser = json_ok(d)
-        return {"desc": to_J(d), "SR": enc(b.SR), "durations": [enc(x) for x in b.durations],
-                "length": b.length_segments, "serialisable": ser}
+        res = {"desc": to_J(d), "SR": enc(b.SR), "durations": [enc(x) for x in b.durations],
+               "length": b.length_segments, "serialisable": ser}
+        if not op.get("_noscribble"):
+            self._scribble_description(d)
+        return res
 
     def op_bp_duration(self, op):
         return q(self.g(op["id"]).duration)
@@ -487,14 +544,23 @@ class Impl:
             self.pool[op["to"]] = BluePrint.init_from_json(p)
 
     # ---- elements
+    def _note_channel(self, eid, ch, raw):
+        if not hasattr(self, "_raw_channels"):
+            self._raw_channels, self._known_elements = {}, set()
+        self._known_elements.add(eid)
+        s = self._raw_channels.setdefault(eid, set())
+        (s.add if raw else s.discard)(ch)
+
     def op_el_new(self, op):
         self.pool[op["id"]] = Element()
 
     def op_el_addBP(self, op):
         self.g(op["id"]).addBluePrint(op["ch"], self.g(op["bp"]))
+        self._note_channel(op["id"], op["ch"], raw=False)
 
     def op_el_addArray(self, op):
         kw = {k: np.array([self.num(x) for x in v], dtype=float) for k, v in op.get("kw", [])}
+        self._note_channel(op["id"], op["ch"], raw=True)
         self.g(op["id"]).addArray(op["ch"], np.array([self.num(x) for x in op["wfm"]], dtype=float), self.v(op["SR"]), **kw)
 
     def op_el_addFlags(self, op):
@@ -521,7 +587,10 @@ class Impl:
     def op_el_desc(self, op):
         d = self.g(op["id"]).description
         ser = json_ok(d)
-        return {"desc": to_J(d), "serialisable": ser}
+        res = {"desc": to_J(d), "serialisable": ser}
+        if not op.get("_noscribble"):
+            self._scribble_description(d)
+        return res
 
     def op_el_copy(self, op):
         self.pool[op["to"]] = self.g(op["id"]).copy()
@@ -615,7 +684,10 @@ class Impl:
     def op_sq_desc(self, op):
         d = self.g(op["id"]).description
         ser = json_ok(d)
-        return {"desc": to_J(d), "serialisable": ser}
+        res = {"desc": to_J(d), "serialisable": ser}
+        if not op.get("_noscribble"):
+            self._scribble_description(d)
+        return res
 
     def op_sq_forge(self, op):
         s = self.g(op["id"])
